@@ -105,6 +105,8 @@ def rule_policy_defaults(ctx: Ctx, out: Collector) -> None:
         cons = f'{m.module.name}::{m.qualname}::<node>.{name}, or the documented default when it is unset'
         table = {}
         problems = []
+        if name == 'exceptions':
+            SET = (AClass(('ext', 'builtins.ValueError')), AClass(('ext', 'builtins.KeyError')))
         for label, val in (('unset (None)', None), ('falsy', 0 if name != 'exceptions' else ()), ('set', SET)):
             def run(oracle: Oracle, val=val):
                 interp = Interp(ctx.p, oracle)
@@ -127,7 +129,7 @@ def rule_policy_defaults(ctx: Ctx, out: Collector) -> None:
                     return isinstance(v, tuple) and len(v) == 1 and isinstance(v[0], AClass) and v[0].ref == ('ext', 'builtins.Exception')
                 return v == dflt and type(v) is type(dflt)
             if label == 'set':
-                if not (len(vals) == 1 and vals[0] is SET):
+                if not (len(vals) == 1 and (vals[0] is SET or (name == 'exceptions' and vals[0] == SET))):
                     problems.append(f'a configured {name} yields {vals}')
             elif label == 'falsy' and name == 'exceptions':
                 # an explicit empty tuple is a configured value ("retry nothing"), not an unset one
